@@ -78,6 +78,17 @@ CLAIMS = {
                      "is modelled; concurrent language isolation is decided under C11.",
         "technique": "Lean 4 invariant proof over the engine's read() + byte-exact differential stream of error texts",
     },
+    "C13": {
+        "text": "Theorem literal_roundtrip: for EVERY Unicode text s and every continuation, the literal written with the documented "
+                "escapes is scanned back to exactly s and closed exactly by the final delimiter — unconditionally in the ' and \" "
+                "styles, and in the backtick / U+001E template styles whenever s does not contain the delimiter; the missing case "
+                "is a kernel-checked witness (known finding). The scanning rules of the model are tied to the real parser by the "
+                "strscan stream on arbitrary literal bodies with random escape sequences (incl. lone backslashes, unterminated "
+                "literals). Templates: oracle on the implementation — value = concatenation of segments and hole values, statement "
+                "holes keep only their last value, assignments inside holes are visible afterwards, nesting 1..20.",
+        "note": TB + "Template concatenation/hole isolation are validated on the implementation, not yet proved on a VM model.",
+        "technique": "Lean 4 induction over texts (escape/scan round trip) + differential stream + template oracle",
+    },
 }
 
 NOT_YET = {}
